@@ -362,6 +362,110 @@ pub fn route_monitoring(i: usize, n: usize) -> Vec<u8> {
 pub fn statistics(i: usize) -> Vec<u8> { fix_ts(encode::mk_statistics_report_msg(&pph(i)).to_vec()) }
 pub fn termination() -> Vec<u8> { encode::mk_termination_msg().to_vec() }
 
+// ----- legal variants of each message kind (RFC 7854 / 8671 / 9069), beyond what the encode helpers build
+
+fn frame(typ: u8, body: &[u8]) -> Vec<u8> {
+    let mut v = vec![3u8]; v.extend(((6 + body.len()) as u32).to_be_bytes()); v.push(typ); v.extend_from_slice(body); v
+}
+fn tlv(t: u16, val: &[u8]) -> Vec<u8> { let mut v = t.to_be_bytes().to_vec(); v.extend((val.len() as u16).to_be_bytes()); v.extend_from_slice(val); v }
+fn set_len(mut m: Vec<u8>) -> Vec<u8> { let n = m.len() as u32; m[1..5].copy_from_slice(&n.to_be_bytes()); m }
+/// The 42-byte per-peer header of peer `i` as the encode helpers write it (timestamp fixed).
+fn pph_bytes(i: usize) -> Vec<u8> { peer_down(i)[6..48].to_vec() }
+fn notification_pdu(code: u8, sub: u8, data: &[u8]) -> Vec<u8> {
+    let mut v = vec![0xff; 16]; v.extend(((21 + data.len()) as u16).to_be_bytes()); v.push(3); v.push(code); v.push(sub); v.extend_from_slice(data); v
+}
+pub const N_TERMINATION_VARIANTS: u64 = 10;
+/// Termination (type 5): information TLVs are type 0 = free-form string (any number, any length) and
+/// type 1 = 2-byte reason code, in any order.
+pub fn termination_variant(k: u64) -> Vec<u8> {
+    let reason = |r: u16| tlv(1, &r.to_be_bytes());
+    let body: Vec<u8> = match k {
+        0 => reason(0),
+        1 => tlv(0, b"maintenance window"),
+        2 => [tlv(0, b"going down"), reason(1)].concat(),
+        3 => [reason(2), tlv(0, b"out of resources")].concat(),
+        4 => [tlv(0, b"a"), tlv(0, b"b"), reason(3)].concat(),
+        5 => [tlv(0, b""), reason(4)].concat(),
+        6 => [tlv(0, &[b'x'; 300]), reason(0)].concat(),
+        7 => [tlv(0, "r\u{e9}seau <b>&".as_bytes()), reason(1)].concat(),
+        8 => vec![],                                   // no TLV at all
+        _ => [reason(1), reason(2)].concat(),
+    };
+    frame(5, &body)
+}
+pub const N_INITIATION_VARIANTS: u64 = 8;
+/// Initiation (type 4): TLVs 0 = string, 1 = sysDescr, 2 = sysName, any number and order.
+pub fn initiation_variant(k: u64) -> Vec<u8> {
+    let body: Vec<u8> = match k {
+        0 => [tlv(2, b"verif-sys"), tlv(1, b"verif-descr")].concat(),
+        1 => [tlv(1, b"verif-descr"), tlv(2, b"verif-sys")].concat(),
+        2 => [tlv(2, b"verif-sys"), tlv(1, b"verif-descr"), tlv(0, b"extra one"), tlv(0, b"extra two")].concat(),
+        3 => [tlv(0, b"only a string")].concat(),
+        4 => [tlv(2, b""), tlv(1, b"")].concat(),
+        5 => [tlv(2, b"verif-sys"), tlv(2, b"second-name"), tlv(1, b"d")].concat(),
+        6 => [tlv(2, &[b'n'; 255]), tlv(1, &[b'd'; 1000])].concat(),
+        _ => [tlv(2, "n\u{e9}<&\"".as_bytes()), tlv(1, b"verif-descr"), tlv(0, b"")].concat(),
+    };
+    frame(4, &body)
+}
+pub const N_PEER_DOWN_VARIANTS: u64 = 7;
+/// Peer Down (type 2): reason 1 = local NOTIFICATION PDU, 2 = local FSM event code, 3 = remote NOTIFICATION PDU,
+/// 4 = remote without data, 5 = peer de-configured, 6 = local system closed, TLV data (RFC 9069).
+pub fn peer_down_variant(i: usize, k: u64) -> Vec<u8> {
+    let mut b = pph_bytes(i);
+    match k {
+        0 => { b.push(1); b.extend(notification_pdu(6, 2, &[])); }
+        1 => { b.push(2); b.extend([0u8, 9]); }
+        2 => { b.push(3); b.extend(notification_pdu(6, 4, &[])); }
+        3 => { b.push(4); }
+        4 => { b.push(5); }
+        5 => { b.push(3); b.extend(notification_pdu(4, 0, &[1, 2, 3])); }
+        _ => { b.push(6); b.extend(tlv(3, b"vrf-blue")); }
+    }
+    frame(2, &b)
+}
+pub const N_STATISTICS_VARIANTS: u64 = 4;
+/// Statistics Report (type 1): a count and that many stat TLVs (4-byte counters, 8-byte gauges, per-AFI/SAFI 11-byte ones).
+pub fn statistics_variant(i: usize, k: u64) -> Vec<u8> {
+    let mut b = pph_bytes(i);
+    let stats: Vec<Vec<u8>> = match k {
+        0 => vec![],
+        1 => vec![tlv(0, &7u32.to_be_bytes())],
+        2 => vec![tlv(0, &1u32.to_be_bytes()), tlv(7, &900u64.to_be_bytes()), tlv(8, &800u64.to_be_bytes())],
+        _ => vec![tlv(9, &[0, 1, 1, 0, 0, 0, 0, 0, 0, 0, 5]), tlv(65000, &[1, 2, 3])],
+    };
+    b.extend((stats.len() as u32).to_be_bytes());
+    for t in stats { b.extend(t); }
+    frame(1, &b)
+}
+/// Route Mirroring (type 6): TLV 0 = a BGP message (here a KEEPALIVE), TLV 1 = 2-byte information code.
+pub fn route_mirroring(i: usize, k: u64) -> Vec<u8> {
+    let mut b = pph_bytes(i);
+    let mut keepalive = vec![0xffu8; 16]; keepalive.extend([0, 19, 4]);
+    match k % 3 { 0 => b.extend(tlv(0, &keepalive)), 1 => b.extend(tlv(1, &[0, 1])), _ => { b.extend(tlv(1, &[0, 0])); b.extend(tlv(0, &keepalive)); } }
+    frame(6, &b)
+}
+/// Peer Up followed by information TLVs (type 0 strings), as RFC 7854 4.10 allows.
+pub fn peer_up_with_info(i: usize, k: u64) -> Vec<u8> {
+    let mut m = peer_up(i);
+    match k % 3 { 0 => m.extend(tlv(0, b"peer note")), 1 => { m.extend(tlv(0, b"")); m.extend(tlv(0, b"second")); } _ => m.extend(tlv(3, b"vrf-red")) }
+    set_len(m)
+}
+/// Any legal variant of any message kind for peers 0..3 (the plain encode-helper forms included).
+pub fn any_variant(g: &mut crate::rng::Rng) -> Vec<u8> {
+    let i = g.below(3) as usize;
+    match g.below(9) {
+        0 => initiation_variant(g.below(N_INITIATION_VARIANTS)),
+        1 => termination_variant(g.below(N_TERMINATION_VARIANTS)),
+        2 => peer_down_variant(i, g.below(N_PEER_DOWN_VARIANTS)),
+        3 => statistics_variant(i, g.below(N_STATISTICS_VARIANTS)),
+        4 => route_mirroring(i, g.below(3)),
+        5 => peer_up_with_info(i, g.below(3)),
+        6 => peer_up(i),
+        _ => route_monitoring(i, g.below(50) as usize),
+    }
+}
+
 /// Sum of all samples of one metric family in a Prometheus text dump.
 pub fn metric_sum(text: &str, name: &str) -> u64 {
     text.lines().filter(|l| !l.starts_with('#') && l.contains(name))
